@@ -259,6 +259,22 @@ theorem stale_cleanup_never_removes_newer {H : Hashes} (hH : HashOk H) {c : Cach
       exact absurd (Option.some.inj this) hne
   exact ⟨h4 hfalse, hfalse⟩
 
+/-- **Answer caches (`PositiveCache` / `NegativeCache`).** `Get` returns a live
+entry and changes nothing; an entry found expired is removed — that key only —
+and reported as a miss.  And a key yields the value MOST RECENTLY stored under
+it: after `Set(k, e)`, `Get(k)` is `e` if live and a miss if `e` is already
+expired, never an older value (`Set` stores whatever it is given). -/
+theorem answer_cache_most_recent {H : Hashes} (hH : HashOk H) (expired : V → Bool) {c : Cache V}
+    (inv : SegInv H c.data) (k : Nat) (e : V) :
+    ((c.ansSet H k e).ansGet H expired k).2 = (if expired e then none else some e) ∧
+    (c.ansGet H expired k).2 = (match sabs H c.data k with
+      | some e => if expired e then none else some e
+      | none => none) ∧
+    (∀ k', sabs H (c.ansGet H expired k).1.data k' =
+      if k' = k ∧ (match sabs H c.data k with | some e => expired e | none => false) = true then none
+      else sabs H c.data k') :=
+  ⟨ansSet_then_get hH expired inv k e, (ansGet_spec hH expired inv k).2.1, (ansGet_spec hH expired inv k).2.2⟩
+
 /-- **Cache histories.** Starting from `cache.New(size)`, after any sequence
 of Add / Remove / CompareAndSwap / CompareAndDelete executed one at a time:
 the structure invariant holds, the length never exceeds the configured size,
@@ -537,6 +553,14 @@ example : (((SegMap.new 4 0 : SegMap Nat).set realHashes 1 10).reachable : Int) 
 example : evictCnt realHashes (SegMap.new 4 0 : SegMap Nat) 3 0 2 7 = 0 := by decide
 
 example : CReach2 2 ⟨3, 1, 0⟩ ⟨3, 0, 1⟩ := CReach2.step (CReach2.refl _) (CStep2.giveUp ⟨3, 1, 0⟩ (by decide))
+
+-- a live entry under key 7, then an already expired one (odd token): the lookup is a miss, not the older value
+example : ∃ c : Cache Nat, SegInv realHashes c.data ∧
+    ((c.ansSet realHashes 7 3).ansGet realHashes (fun t => t % 2 == 1) 7).2 = none := by
+  obtain ⟨_, ⟨s1, _, _⟩, _⟩ := segmap_refines realHashes_ok (segmap_new_spec (V := Nat) realHashes 4 0).1 7 2
+  exact ⟨⟨(SegMap.new 4 0).set realHashes 7 2, 4⟩, s1,
+    by rw [(answer_cache_most_recent realHashes_ok (fun t => t % 2 == 1)
+      (c := ⟨(SegMap.new 4 0).set realHashes 7 2, 4⟩) s1 7 3).1]; rfl⟩
 
 example : CReach 2 ⟨2, 0⟩ ⟨2, 0⟩ ∧ CReach 2 ⟨2, 0⟩ ⟨3, 1⟩ :=
   ⟨CReach.refl _, CReach.step (CReach.refl _) (CStep.insert ⟨2, 0⟩ true)⟩
